@@ -15,6 +15,8 @@ type entryReport struct {
 	Entry        string         `json:"entry"`
 	Note         string         `json:"note,omitempty"`
 	Bounds       map[string]int `json:"bounds,omitempty"`
+	BoundParams  map[string]int    `json:"bound_parameters"` // harness bound parameters (verif.Bound) and the value used in this tier
+	Inputs       map[string]string `json:"symbolic_inputs"`  // symbolic inputs by name pattern (# = a digit) and their domains
 	Paths        int            `json:"paths"`
 	Infeasible   int            `json:"paths_cut_by_assume"`
 	Forks        int            `json:"decisions_forked"`
@@ -68,6 +70,7 @@ func (ev *evidence) addEntry(ent EntryCfg, tc TierCfg, ex *interp.Explorer, d ti
 		FeasQueries: ex.Solver.Feasibility, ValidQueries: ex.Solver.Validity,
 		SolverS: ex.Solver.Time.Seconds(), MaxQueryMs: float64(ex.Solver.MaxQuery.Microseconds()) / 1000,
 		WallS: d.Seconds(), Reached: ex.Reached, TimedOut: ex.TimedOut,
+		BoundParams: ex.BoundsUsed, Inputs: ex.Inputs,
 	}
 	if len(ex.Unsupp) > 0 {
 		er.Inconclusive = ex.Unsupp
@@ -85,6 +88,25 @@ func (ev *evidence) addEntry(ent EntryCfg, tc TierCfg, ex *interp.Explorer, d ti
 		ev.Stubs[s] += n
 	}
 	return er
+}
+
+// boundsDoc states the bounds of the run: the harness bound parameters with
+// the values of this tier and the domain of every symbolic input, per entry
+// (loops in the code under test are not unwound to a fixed depth: every loop
+// runs until its own exit condition, whose symbolic branches are forked and
+// decided by the solver; a path that exceeds the step budget is reported as an
+// unwinding failure and makes the run inconclusive).
+func (ev *evidence) boundsDoc() map[string]any {
+	doc := map[string]any{"tier": ev.Tier, "loop_unwinding": "none fixed: loops run to their exit condition, every symbolic branch forked; step budget exceeded = unwinding failure = inconclusive"}
+	per := map[string]any{}
+	for _, e := range ev.Entries {
+		per[e.Entry] = map[string]any{"bound_parameters": e.BoundParams, "symbolic_inputs": e.Inputs}
+	}
+	doc["per_entry"] = per
+	if len(ev.cfg.BoundsText) > 0 {
+		doc["notes"] = ev.cfg.BoundsText
+	}
+	return doc
 }
 
 func (ev *evidence) totalObl() int {
@@ -160,7 +182,7 @@ func (ev *evidence) write(path string) error {
 		"functions_encoded_gittuf":      gittufFuncs,
 		"functions_encoded_other_count": len(otherFuncs),
 		"stubs_intercepted":             stubs,
-		"bounds":                        ev.cfg.BoundsText,
+		"bounds":                        ev.boundsDoc(),
 		"load_and_ssa_build_s":          ev.LoadS,
 		"inconclusive":                  ev.Inconclusive,
 		"violations":                    ev.Violations,
